@@ -288,6 +288,25 @@ example :
       (s.g.final 1).isNone = true ∧ (s.g.final 2).isSome = true ∧ (s.g.final 3).isSome = true := by
   decide
 
+/-- the "create repo.json if it is missing" step of `__addPackage` runs outside the lock: it is a separate segment
+that may be scheduled after another project has created AND filled the file, so `accounting` depends on it never
+changing an existing file (`open(fn, "a")`, not `"w"`) -/
+theorem create_keeps_content (H : Nat → Nat) (cfg : Cfg) (prog : Prog) (exO shO : Bool) (g : Store)
+    (h : g.repo ≠ .absent) : (stepPc H cfg prog exO shO g .iAddTouch).1.repo = g.repo := by
+  unfold stepPc
+  cases hr : g.repo with
+  | absent => exact absurd hr h
+  | torn => simp [hr]
+  | valid l => simp [hr]
+
+/-- two first installs into an empty store; process 0 is stopped between its failed locked open and its create step,
+process 1 creates and fills repo.json in between: both packages end up recorded -/
+example :
+    let s := run id Cfg.fixed (initSt emptyStore [inst 100 1, inst 101 2])
+      [0, 0, 0, 0, 1, 1, 1, 1, 1, 1, 1, 1, 0, 0, 0, 0]
+    (s.procs.map (·.pc)) = [.done (.inst true), .done (.inst true)] ∧ s.g.repo = .valid [(2, 5), (1, 5)] := by
+  decide
+
 /-- gc subtracts exactly what it moved, `__addPackage` adds exactly the size of the new package -/
 theorem accounting_delta (l : List (Bid × Nat)) (b : Bid) (sz : Nat) (h : (keys l).Nodup) :
     ((b, sz) ∈ l → sumSizes (erasePkg l b) + sz = sumSizes l) ∧
